@@ -1329,6 +1329,22 @@ package graphql
 //@   requires s.Distances[i] == s.Distances[i] && s.Distances[j] == s.Distances[j]
 //@   ensures s.Options[i] == old(s.Options[j]) && s.Options[j] == old(s.Options[i])
 //@   ensures s.Distances[i] == old(s.Distances[j]) && s.Distances[j] == old(s.Distances[i])
+// Less is a strict order that decides every pair of different options: by distance, and between equal
+// distances by name; so the sorted list does not depend on the order the candidates came in (they are
+// collected from Go maps), and the sort used must be sort.Sort over exactly this order.
+//@ func suggestionListResult.Less
+//@   props C12
+//@   requires 0 <= i && i < len(s.Options) && 0 <= j && j < len(s.Options) && len(s.Distances) == len(s.Options)
+//@   assigns nothing
+//@   ensures s.Distances[i] < s.Distances[j] ==> result
+//@   ensures s.Distances[i] > s.Distances[j] ==> !result
+//@   ensures s.Distances[i] == s.Distances[j] ==> (result <==> s.Options[i] < s.Options[j])
+//@ func suggestionList
+//@   props C12
+//@   nosafety
+//@   at call Sort: assert typeis(arg0, "graphql.suggestionListResult") && as(arg0, "graphql.suggestionListResult").Options == filteredOpts && as(arg0, "graphql.suggestionListResult").Distances == dists
+//@   ensures calls("Sort") == 1 && calls("Stable") == 0
+//@   loop 1 over options
 //@ func getSuggestedFieldNames
 //@   props C12
 //@   nosafety
